@@ -3,7 +3,8 @@ package main
 func init() {
 	register("C17", Rule{Name: "E5", Run: runE5})
 	register("C01", Rule{Name: "E4.P1", Run: runP1}, Rule{Name: "E4.P2P3", Run: runP2P3}, Rule{Name: "E4.P2prod", Run: runP2Producers}, Rule{Name: "E4.P4", Run: runP4}, Rule{Name: "E4.P5", Run: runP5}, Rule{Name: "E1.pairing", Run: runKindPairing})
-	register("C03", Rule{Name: "E2", Run: runE2}, Rule{Name: "E2.cmp", Run: runE2Comparators}, Rule{Name: "E2.nondet", Run: runNondetSources}, Rule{Name: "E3.state", Run: runGlobalState})
+	register("C03", Rule{Name: "E2", Run: runE2}, Rule{Name: "E2.cmp", Run: runE2Comparators}, Rule{Name: "E2.nondet", Run: runNondetSources}, Rule{Name: "E3.state", Run: runGlobalState}, Rule{Name: "E3", Run: runE3},
+		Rule{Name: "E2.cmp-subject", Run: runCmpSubject}, Rule{Name: "E2.poskeys", Run: runPosKeys})
 }
 
 func init() {
@@ -71,6 +72,11 @@ func init() {
 
 func init() {
 	register("C20", Rule{Name: "E1.rows", Run: runRows("C20")}, Rule{Name: "E12.visitor", Run: runVisitorStateless})
+}
+
+func init() {
+	register("C19", Rule{Name: "E1.rows", Run: runRows("C19")}, Rule{Name: "E13.json", Run: runJSONSiblings}, Rule{Name: "E10.json", Run: runJSONRemainder},
+		Rule{Name: "E6", Run: runE6For("Reference.ReferenceOrigins", "Reference.ReferenceTargets", "ast.DecodeBody")})
 }
 
 var childExceptions = map[string]string{}
